@@ -259,20 +259,23 @@ def run_fields_and_pdf(ctx: Ctx):
         rs = np.random.RandomState(ctx.seed * 19 + n)
         a = rs.rand(12); b = 1.0 + rs.rand(12)
         data = a[:, None] * np.sin(2 * grid) + b[:, None] * np.cos(grid)
-        fld = Variable('T', compression=SVD(rank=2, coords=grid, data_matrix=data.T))
+        col = n % 2 == 1        # coordinates as a flat array or as an (N, 1) column (one coordinate per point)
+        fld = Variable('T', compression=SVD(rank=2, coords=(grid.reshape((-1, 1)) if col else grid), data_matrix=data.T))
         vl = VariableList([fld])
         p_ = rng.choice([1.3, 1.6, 0.7])
         stretched = -1.0 + 2.0 * ((grid + 1.0) / 2.0) ** p_          # same count, same end points, different interior spacing
+        if col:
+            stretched = stretched.reshape((-1, 1))
         lat = rs.rand(3, 2) * 2 - 1
         surr = {f'T_LATENT{i}': lat[:, i] for i in range(2)}
-        case = {'stretched_grid_case': n, 'exponent': p_, 'latent': lat.tolist()}
+        case = {'stretched_grid_case': n, 'exponent': p_, 'coordinates_as_column': col, 'latent': lat.tolist()}
         ctx.case(case, nontrivial=True, kind='dataset:other-coordinates')
         try:
             m1, fc = to_model_dataset(surr, vl, del_latent=True, T_coords=stretched)
             back, _ = to_surrogate_dataset(m1, vl, del_fields=True, **fc)
             # the field handed out on the stretched coordinates is the reconstruction evaluated there
             m0, _ = to_model_dataset(surr, vl, del_latent=True)
-            ref = np.array([np.interp(stretched, grid, row) for row in np.asarray(m0['T'])])
+            ref = np.array([np.interp(np.ravel(stretched), grid, row) for row in np.asarray(m0['T'])])
             if not np.allclose(np.asarray(m1['T']), ref, rtol=0, atol=2e-3 * float(np.max(np.abs(ref)) + 1)):
                 ctx.violate('C16:field-on-other-coordinates-wrong', 'the field returned on other coordinates is not the reconstruction interpolated to them', case)
             for k, v in surr.items():
